@@ -243,10 +243,10 @@ def build_model():
     for f in ("model.ml", "model.mli"):
         shutil.copy(os.path.join(COQ, f), d)
     shutil.copy(drv, d)
-    rc, o, e = run(["ocamlfind", "ocamlopt", "-O3", "-w", "-a", "-package", "zarith", "-linkpkg",
+    rc, o, e = run(["ocamlfind", "ocamlopt", "-O3", "-w", "-a", "-package", "zarith,str", "-linkpkg",
                     "model.mli", "model.ml", "driver.ml", "-o", "driver"], cwd=d, timeout=600)
     if rc != 0:
-        rc, o, e = run(["ocamlfind", "ocamlopt", "-w", "-a", "-package", "zarith", "-linkpkg",
+        rc, o, e = run(["ocamlfind", "ocamlopt", "-w", "-a", "-package", "zarith,str", "-linkpkg",
                         "model.mli", "model.ml", "driver.ml", "-o", "driver"], cwd=d, timeout=600)
     if rc != 0:
         raise BuildError("OCaml build failed:\n" + e[-6000:])
